@@ -70,6 +70,17 @@ func dumpFacts(m *Model, what string) {
 				}
 			}
 		}
+	case "nilable":
+		ni := m.NilableASTFields()
+		var ks []string
+		for id, why := range ni.why {
+			ks = append(ks, fmt.Sprintf("%s.%d: %s", shortTypeName(id.typ), id.field, why))
+		}
+		sort.Strings(ks)
+		for _, k := range ks {
+			fmt.Println(k)
+		}
+		fmt.Println(len(ni.all), "pointer/interface fields seen;", len(ni.why), "nilable")
 	default:
 		fmt.Println("unknown dump", what)
 	}
